@@ -567,3 +567,42 @@ def known_findings():
             d["_line"] = line
             out.append(d)
     return out
+
+
+# --------------------------------------------------------------------------
+# per-unit records (hook H2)
+
+_rec_counter = [0]
+
+
+def run_with_records(binary, args, stdin="", env=None, cwd=None, timeout=20):
+    """Run the CLI with VICUT_VERIF_RECORDS; returns (rc, out, err, units)."""
+    os.makedirs(TMP, exist_ok=True)
+    _rec_counter[0] += 1
+    import threading
+    path = os.path.join(TMP, f"rec_{os.getpid()}_{threading.get_ident()}_{_rec_counter[0]}.jsonl")
+    e = {"VICUT_VERIF_RECORDS": path}
+    if env:
+        e.update(env)
+    rc, out, err = run_cli(binary, args, stdin, e, cwd, timeout)
+    units = []
+    try:
+        with open(path, encoding="utf-8") as f:
+            for line in f:
+                units.append(json.loads(line))
+        os.remove(path)
+    except FileNotFoundError:
+        pass
+    return rc, out, err, units
+
+
+def records_map(binary, jobs, nworkers=NPROC):
+    def work(j):
+        return run_with_records(binary, j["args"], j.get("stdin", ""), j.get("env"), j.get("cwd"), j.get("timeout", 20))
+    with ThreadPoolExecutor(nworkers) as ex:
+        return list(ex.map(work, jobs))
+
+
+def recs_coq(recs):
+    """[[ [k,v], ...], ...] -> list record for the model"""
+    return [[(txt(k), txt(v)) for k, v in r] for r in recs]
